@@ -133,7 +133,8 @@ func (p *C12) Generate(seed uint64, run int) *Case {
 				st.Stdin.Plan = simrt.Plan{Chunks: []int{65536, 4096, 1 << 20}, EOFWithData: true}
 			default:
 				st.Argv = append(st.Argv, inPath)
-				st.Files = map[string]*simrt.FileSpec{inPath: {Data: st.Stdin.Data, Plan: simrt.Plan{Chunks: []int{1 << 16}}, Pipe: note == "inpath:fifo"}}
+				st.Files = cloneFiles(st.Files) // the dictionaries of the command stay
+				st.Files[inPath] = &simrt.FileSpec{Data: st.Stdin.Data, Plan: simrt.Plan{Chunks: []int{1 << 16}}, Pipe: note == "inpath:fifo"}
 				st.Stdin = nil
 			}
 			c.Steps = append(c.Steps, st)
